@@ -82,3 +82,6 @@ func VerifC11_BlueGreenDeploymentFinalize() {
 		verifrt.Assert(len(cli.Writes("patch", "Deployment")) == 1, "C11.bgdeploy.finalize.releasesControl")
 	}
 }
+
+// C11: the readiness target of the blue-green Deployment's batch context equals the pods the step calls for.
+func VerifC11_BlueGreenDeploymentReadinessTarget() { VerifC01_BlueGreenDeploymentBatch() }
